@@ -245,7 +245,7 @@ func caseHostile(t *testing.T, tp *simrt.Tape, c *Ctx) (res Result) {
 		res.stat("probe.config-refused", 1)
 		res.NonTrivial = sweep
 		if !sweep {
-			res.Infra = "valid battle configuration refused: " + err.Error()
+			res.Discard = "configuration refused at creation"
 		}
 		return
 	}
